@@ -173,7 +173,8 @@ def pool_state(ex, env, frame=None):
     self_v = ex.alloc(HObj(ci, attrs))
     ex.ghost['drawn'] = ex.fresh('drawn', smt.Int)
     ex.ghost['done'] = ex.fresh('done', smt.Int)
-    ex.ghost['refused'] = z3.BoolVal(False)
+    ex.ghost['refused'] = ex.fresh('refused0', smt.Bool)        # sticky: the user enqueue function has refused at least once (possibly before this call)
+    ex.ghost['__settled__'] = ex.fresh('settled', z3.ArraySort(Val, smt.Bool))      # logical variable: the workers for which J is claimed (all of them in Pool.run's main loop)
     ex.ghost['answered'] = ex.fresh('answered_seq', SeqVal)
     I.fact_part(e0, ex.ghost['answered'])
     source = I.sym('source')
@@ -287,6 +288,110 @@ def inv_clauses():
     open_worker_matches_una.forall = worker_keys
     closed_worker_has_nothing.forall = worker_keys
     return [pending_is_sum, keys_are_workers, open_worker_matches_una, closed_worker_has_nothing, queues_subset]
+
+
+# ------------------------------------------------------------------------------ progress invariant J (C08.L1)
+def _st(c, old):
+    ex = c.ex
+    a = (ex.old['heap'] if old else ex.heap)[c.env['pool'].addr].attrs
+    g = ex.old['ghost'] if old else ex.ghost
+    return ex, a, g
+
+
+def idle_live(c, w0, old=False):
+    ex, a, g = _st(c, old)
+    ppw = H(ex, a['_pending_per_worker'], old)
+    return z3.And(z3.Select(H(ex, a['_workers'], old).dom, w0), z3.Not(z3.Select(H(ex, a['_closed'], old).dom, w0)),
+                  z3.Select(ppw.dom, w0), z3.Length(z3.Select(ppw.map, w0)) == 0)
+
+
+def nothing_left(c, old=False):
+    ex, a, g = _st(c, old)
+    return z3.And(a['_depleted'].e, z3.Length(H(ex, a['_retries'], old).seq) == 0)
+
+
+def J_of(c, w0, old=False, settled=None, depleted_only=False):
+    """J(w0): a settled, registered, non-closed worker with nothing pending exists only if nothing is left to hand out
+    (source depleted and retry list empty) - or the user's enqueue function has refused an input.
+    depleted_only: the weaker Jd (retries may be non-empty: inside handle_death's re-dispatch loop)"""
+    ex, a, g = _st(c, old)
+    S = settled if settled is not None else g['__settled__']
+    rest = a['_depleted'].e if depleted_only else nothing_left(c, old)
+    return z3.Implies(z3.And(z3.Select(S, w0), idle_live(c, w0, old)), z3.Or(g['refused'], rest))
+
+
+def _others(c, w0, name='worker'):
+    w = c.env.get(name)
+    if w is None:
+        return z3.BoolVal(True)
+    return w0 != wkey(w)
+
+
+def preserves_J(c, w0):
+    return z3.Implies(z3.And(_others(c, w0), J_of(c, w0, old=True)), J_of(c, w0))
+
+
+preserves_J.__doc__ = 'for every other worker w0: J(w0) before ==> J(w0) after  (J: settled idle live worker ==> nothing left to hand out, or the user function refused)'
+preserves_J.forall = worker_keys
+
+
+def preserves_Jd(c, w0):
+    return z3.Implies(z3.And(_others(c, w0), J_of(c, w0, old=True, depleted_only=True)), J_of(c, w0, depleted_only=True))
+
+
+preserves_Jd.__doc__ = 'for every other worker w0: Jd(w0) before ==> Jd(w0) after  (Jd: settled idle live worker ==> source depleted, or the user function refused)'
+preserves_Jd.forall = worker_keys
+
+
+def own_J(c):
+    w = c.env['worker']
+    return J_of(c, wkey(w), settled=z3.K(Val, z3.BoolVal(True)))
+
+
+own_J.__doc__ = 'the worker this call was about: if it is (still) live and has nothing pending, nothing is left to hand out - or the user function refused'
+
+
+def busy_stays_busy(c, w0):
+    return z3.Implies(z3.And(_others(c, w0), idle_live(c, w0)), idle_live(c, w0, old=True))
+
+
+busy_stays_busy.__doc__ = 'another worker that is idle and live now was idle and live before (no pending input disappears here)'
+busy_stays_busy.forall = worker_keys
+
+
+def false_means_nothing_left(c):
+    r = c.env['result']
+    t = c.ex.interp.truth(r)
+    t = t if isinstance(t, z3.ExprRef) else z3.BoolVal(bool(t))
+    return z3.Implies(z3.Not(t), nothing_left(c))
+
+
+false_means_nothing_left.__doc__ = 'try_enqueue returns False only when nothing is left to hand out (source depleted, no retries)'
+
+
+def refused_sticky(c):
+    return z3.Implies(c.ex.old['ghost']['refused'], c.ex.ghost['refused'])
+
+
+refused_sticky.__doc__ = 'a refusal of the user enqueue function is never forgotten'
+
+
+def J_gives_Jd(c, w0):
+    return z3.Implies(z3.And(_others(c, w0), J_of(c, w0, old=True)), J_of(c, w0, depleted_only=True))
+
+
+J_gives_Jd.__doc__ = 'J(w0) at entry ==> Jd(w0) now'
+J_gives_Jd.forall = worker_keys
+
+
+def depleted_kept(c):
+    ex = c.ex
+    a = _pool(c)
+    a0 = ex.old['heap'][c.env['pool'].addr].attrs
+    return z3.Implies(a0['_depleted'].e, a['_depleted'].e)
+
+
+depleted_kept.__doc__ = '_depleted never goes back to False'
 
 
 def conservation_kept(c):
@@ -596,6 +701,20 @@ def build_closure_contracts(ex, with_variants=True):
         return z3.Length(z3.Select(p1.map, wkey(w))) == z3.Length(z3.Select(p0.map, wkey(w)))
     pending_of_worker_kept.__doc__ = 'while the input is in hand nothing has been added to this worker\'s pending inputs'
 
+    def data_facts(c):
+        """while an input is in hand: it came from the retry list (then that list was non-empty at entry) or from the source (then the source is not depleted, now as at entry)"""
+        ex_ = c.ex
+        a = _pool(c)
+        a0 = ex_.old['heap'][c.env['pool'].addr].attrs
+        hd = ex_.interp.truth(c.env['has_data'])
+        hd = hd if isinstance(hd, z3.ExprRef) else z3.BoolVal(bool(hd))
+        fr_ = ex_.interp.truth(c.env['from_retries'])
+        fr_ = fr_ if isinstance(fr_, z3.ExprRef) else z3.BoolVal(bool(fr_))
+        return z3.And(z3.Implies(hd, z3.And(z3.Implies(z3.Not(fr_), z3.And(z3.Not(a['_depleted'].e), z3.Not(a0['_depleted'].e))), a['_depleted'].e == a0['_depleted'].e)),
+                      z3.Implies(z3.Not(hd), nothing_left(c)))
+    data_facts.__doc__ = ('an input in hand that did not come from the retry list was drawn from a source that is not depleted, and _depleted is as at entry while an input is in hand; '
+                          'no input in hand means nothing is left to hand out')
+
     def progress_unless_refused(c):
         return z3.Or(c.ex.ghost['refused'], progress_or_refused(c))
     progress_unless_refused.__doc__ = 'the user enqueue function refused during this call, or: ' + progress_or_refused.__doc__
@@ -616,18 +735,21 @@ def build_closure_contracts(ex, with_variants=True):
     mk('try_enqueue', 'Lt', name='C07.Lt try_enqueue places the input it takes (worker, retries) or hands it to handle_unused_data; keeps Inv',
        params={'worker': abs_worker('worker')}, setup=with_poolenv(),
        requires=INV + [worker_registered(), worker_not_closed()],
-       ensures=INV + [conservation_kept, closed_monotone, ret_unchanged, no_answers, never_loses_negative, progress_unless_refused, no_progress_means_nothing_enqueued],
+       ensures=INV + [conservation_kept, closed_monotone, ret_unchanged, no_answers, never_loses_negative, progress_unless_refused, no_progress_means_nothing_enqueued,
+                      preserves_J, preserves_Jd, own_J, busy_stays_busy, false_means_nothing_left, refused_sticky, depleted_kept],
        returns='bool', modifies=MODS,
-       loops={0: Loop(invariant=INV + [in_hand, in_hand_weak, retries_in_loop, closed_monotone, ret_unchanged, no_answers, worker_registered(), worker_not_closed(), pending_of_worker_kept],
+       loops={0: Loop(invariant=INV + [in_hand, in_hand_weak, retries_in_loop, closed_monotone, ret_unchanged, no_answers, worker_registered(), worker_not_closed(), pending_of_worker_kept,
+                                       busy_stays_busy, data_facts, refused_sticky, depleted_kept],
                       modifies=MODS, locals={'trials': 'int'})})
 
     # ---- handle_death
     mk('handle_death', 'Ld', name='C07.Ld handle_death closes the worker, moves its pending inputs to retries (retry on) and re-dispatches; keeps Inv',
        params={'worker': abs_worker('worker'), 'when': 'any'}, setup=with_poolenv(),
        requires=INV + [worker_registered(), worker_not_closed()],
-       ensures=INV + [conservation_kept, closed_monotone, ret_unchanged, worker_closed(), no_answers, never_loses_negative],
+       ensures=INV + [conservation_kept, closed_monotone, ret_unchanged, worker_closed(), no_answers, never_loses_negative, preserves_J, preserves_Jd, busy_stays_busy, refused_sticky, depleted_kept],
        returns='none', modifies=MODS,
-       loops={0: Loop(invariant=INV + [conservation_kept, closed_monotone, ret_unchanged, worker_closed(), no_answers, never_loses_negative],
+       loops={0: Loop(invariant=INV + [conservation_kept, closed_monotone, ret_unchanged, worker_closed(), no_answers, never_loses_negative, preserves_Jd, J_gives_Jd, busy_stays_busy, refused_sticky,
+                                       depleted_kept],
                       modifies=MODS, locals={'idle': opt_worker}, progress=[strict_progress])})
 
     # ---- handle_new_result
@@ -686,17 +808,47 @@ def build_closure_contracts(ex, with_variants=True):
     mk('handle_new_result', 'Ln', name='C07.Ln handle_new_result pops the answered input, records the genuine result, refills the worker; restores Inv',
        params={'worker': abs_worker('worker'), 'result': 'any'}, setup=with_poolenv(new_result_setup),
        requires=inv_wo_match + [worker_registered(), just_answered, others_match, answered_pending, result_is_answer],
-       ensures=INV + [cons_after_answer, cons_after_answer_weak, closed_monotone, ret_genuine, no_answers],
+       ensures=INV + [cons_after_answer, cons_after_answer_weak, closed_monotone, ret_genuine, no_answers, preserves_J, own_J, refused_sticky, depleted_kept],
        returns='none', modifies=MODS)
 
     # ---- first_enqueue
-    mk('first_enqueue', 'Lf', name='C07.Lf first_enqueue keeps Inv and loses no input',
-       setup=with_poolenv(), requires=INV, ensures=INV + [conservation_kept, closed_monotone, ret_unchanged, no_answers, never_loses_negative],
+    def base_set(c):
+        i = c.env['__i__'].e
+        return z3.If(i >= 1, z3.K(Val, z3.BoolVal(True)), z3.K(Val, z3.BoolVal(False)))
+
+    def J_rounds(c, w0):
+        return J_of(c, w0, settled=base_set(c))
+    J_rounds.__doc__ = 'J(w0) for the workers settled so far: all of them once the first round is complete'
+    J_rounds.forall = worker_keys
+
+    def J_round(c, w0):
+        return J_of(c, w0, settled=z3.SetUnion(base_set(c), c.env['__visited__'].t))
+    J_round.__doc__ = 'J(w0) for the workers of earlier rounds and those already visited in this round'
+    J_round.forall = worker_keys
+
+    def settle_current(ex_, fr):
+        # logical variable of the callee contracts: the set for which J is claimed after this call = earlier rounds + visited + the worker visited now
+        i = fr.locals['__i__'].e
+        base = z3.If(i >= 1, z3.K(Val, z3.BoolVal(True)), z3.K(Val, z3.BoolVal(False)))
+        ex_.ghost['__settled__'] = z3.SetUnion(base, z3.Store(fr.locals['__visited__'].t, fr.locals['__k__'].t, z3.BoolVal(True)))
+        w = fr.locals.get('worker')
+        if isinstance(w, VSym):
+            ex_.assume(Val.vakey(w.t) == fr.locals['__k__'].t)          # a worker is registered under its own id (fixed_map)
+
+    def J_all(c, w0):
+        return J_of(c, w0, settled=z3.K(Val, z3.BoolVal(True)))
+    J_all.__doc__ = 'afterwards J holds for every worker: a live worker with nothing pending exists only if nothing is left to hand out (or the user function refused)'
+    J_all.forall = worker_keys
+
+    def unsettled_entry(ex_, env):
+        ex_.ghost['__settled__'] = z3.K(Val, z3.BoolVal(False))
+    mk('first_enqueue', 'Lf', name='C07.Lf first_enqueue keeps Inv, loses no input and leaves no worker idle while there is work',
+       setup=with_poolenv(unsettled_entry), requires=INV, ensures=INV + [conservation_kept, closed_monotone, ret_unchanged, no_answers, never_loses_negative, J_all, refused_sticky, depleted_kept],
        returns='none', modifies=MODS,
-       loops={0: Loop(invariant=INV + [conservation_kept, closed_monotone, ret_unchanged, no_answers, never_loses_negative], modifies=MODS,
+       loops={0: Loop(invariant=INV + [conservation_kept, closed_monotone, ret_unchanged, no_answers, never_loses_negative, J_rounds, refused_sticky, depleted_kept], modifies=MODS,
                       locals={'worker': abs_worker('worker'), 'more_data': 'bool'}),
-              1: Loop(invariant=INV + [conservation_kept, closed_monotone, ret_unchanged, no_answers, never_loses_negative], modifies=MODS,
-                      locals={'more_data': 'bool'})})
+              1: Loop(invariant=INV + [conservation_kept, closed_monotone, ret_unchanged, no_answers, never_loses_negative, J_round, refused_sticky, depleted_kept], modifies=MODS,
+                      locals={'more_data': 'bool'}, on_bind=settle_current)})
     for n in ('get_next_idle_worker', 'try_enqueue', 'handle_death', 'handle_new_result', 'first_enqueue'):
         ex.use_contract.add(f'{RUN}.<{n}>')
     return cons
@@ -746,7 +898,7 @@ pairing.__doc__ = ('done(e0) == cnt(e0, answered) and, when results are collecte
                    'ret[k0] == result_of(answered[k0]) for the arbitrary position k0')
 
 
-def build_run_contract(ex):
+def build_run_contract(ex, strict_poolerror=False):
     INV = inv_clauses() + [sums_sane, open_worker_has_queue]
     fi_run = ex.repo.func(RUN)
 
@@ -765,6 +917,8 @@ def build_run_contract(ex):
         # nothing of this run has happened yet
         ex_.ghost['drawn'] = z3.IntVal(0)
         ex_.ghost['done'] = z3.IntVal(0)
+        ex_.ghost['refused'] = z3.BoolVal(False)                       # nothing has been refused when run() starts
+        ex_.ghost['__settled__'] = z3.K(Val, z3.BoolVal(True))         # in the main loop J is claimed for every worker
         ex_.ghost['answered'] = z3.Empty(SeqVal)
         ex_.ghost['__specenv__'] = {'pool': pool_v, 'e0': env['e0'], 'w0': env['w0'], 'k0': env['k0']}
         ex_.ghost['__poolenv__'] = env
@@ -812,7 +966,35 @@ def build_run_contract(ex):
             if getattr(inv, 'forall', None) is not None:
                 ex_.assume(ex_.spec_bool(inv, fr, mode='assume'))     # the invariant holds for every worker id: instantiate at this queue's
 
-    loop_inv = INV + [at_rest, never_duplicated, pairing]
+    def J_main(c, w0):
+        return J_of(c, w0, settled=z3.K(Val, z3.BoolVal(True)))
+    J_main.__doc__ = ('progress invariant J: a registered, non-closed worker (w0 arbitrary) with nothing pending exists only if nothing is left to hand out '
+                      '(source depleted and no retries) - or the user enqueue function has refused an input')
+    J_main.forall = worker_keys
+
+    def _all_closed(c):
+        ex_ = c.ex
+        a = _pool(c)
+        w0 = c.env['w0'].t
+        ppw = H(ex_, a['_pending_per_worker'])
+        # T1 (sum abstraction): each summand of the sum of the pending-list lengths is at most the sum
+        ex_.assume(z3.Implies(z3.Select(ppw.dom, w0), z3.And(z3.Length(z3.Select(ppw.map, w0)) >= 0, z3.Length(z3.Select(ppw.map, w0)) <= ppw.extra['sumlen'])))
+        return z3.Implies(z3.Select(H(ex_, a['_workers']).dom, w0), z3.Select(H(ex_, a['_closed']).dom, w0))
+
+    def poolerror_only_without_workers(c):
+        return z3.Or(_all_closed(c), c.ex.ghost['refused'])
+    poolerror_only_without_workers.__doc__ = ('C08.L1: PoolError is raised only if every registered worker (w0 arbitrary) has died or been closed - '
+                                              'or the user enqueue function refused an input (see the strict clause)')
+
+    def poolerror_strict(c):
+        exc = c.env.get('raised')
+        if not isinstance(exc, VExc) or exc.cls != 'PoolError':
+            return z3.BoolVal(True)
+        return _all_closed(c)
+    poolerror_strict.__doc__ = ('C08.L1 (strict): PoolError is raised only if every registered worker has died or been closed - also when the user enqueue function '
+                                'refuses (worker, input) pairs')
+
+    loop_inv = INV + [at_rest, never_duplicated, pairing, J_main, refused_sticky]
     main = Loop(invariant=loop_inv, modifies=MODS + ['pool._queues'], locals={})
     inner = Loop(invariant=loop_inv, modifies=MODS + ['pool._queues'], on_bind=conn_is_open_queue,
                  locals={'msg': 'any', 'found': 'bool', 'wid': 'any', 'queue': 'any', 'flag': 'bool', 'result': 'any',
@@ -875,9 +1057,9 @@ def build_run_contract(ex):
                 'enqueue_fn': ('const', None), 'worker_extra_pending_inputs': ('const', None), 'return_results': ('const', None)},
         requires=[inv_clauses()[1], inv_clauses()[4], open_worker_has_queue, entry_no_outstanding],
         ensures=[exactly_once, returns_ret],
-        raises={'PoolError': None, 'RuntimeError': None},
+        raises={'PoolError': poolerror_only_without_workers, 'RuntimeError': None},
         raises_only=['PoolError', 'RuntimeError'],
-        all_exits=[partial_genuine],
+        all_exits=[partial_genuine] + ([poolerror_strict] if strict_poolerror else []),
         loops={0: main, 1: inner, 2: search},
         options=dict(OPTIONS))
     ex.contracts[RUN + '#top'] = con
